@@ -176,10 +176,12 @@ class Serializable(object):  # pylint: disable=too-few-public-methods
                 else:
                     human_readable_name = ' '.join(name.split('_')).title()
             else:
-                post_text_encoder = cls.post_text_encoder
-                cls.post_text_encoder = SerializableTextEncoder()
-                _, human_readable_name = cls._markdown_result(name)
-                cls.post_text_encoder = post_text_encoder
+                post_text_encoder = Serializable.post_text_encoder
+                Serializable.post_text_encoder = SerializableTextEncoder()
+                try:
+                    _, human_readable_name = cls._markdown_result(name)
+                finally:
+                    Serializable.post_text_encoder = post_text_encoder
 
             name_dict[name] = human_readable_name
 
